@@ -13,8 +13,9 @@ import Dashu.Model.Int.Repr
     parameters**: modelled as exact floor division guarded by the precondition the crate asserts
     (`a_hi < divisor`, "top bit set"); a violated precondition is an `.undocumented` error, never a
     silently wrong value.
-  * `divRemInPlaceDCFrontier` (Burnikel–Ziegler, `div/divide_conquer.rs`) is a frontier kernel:
-    defined as its specification.
+  * Burnikel–Ziegler (`div/divide_conquer.rs`) is mirrored (`bzSameLen`, `bzSmallQuotient`,
+    `bzOuter`); the multiplication it calls (`mul::add_signed_mul`) is a contract parameter
+    (`subMulContract`: exact `c − a·b` with signed carry) — the multiplication kernels are C01's.
   Core Lean only.
 -/
 namespace Dashu.Model.Div
@@ -344,8 +345,9 @@ def toWords (W : Nat) : Nat → Nat → List Nat
   | 0, _ => []
   | n + 1, v => v % 2 ^ W :: toWords W n (v / 2 ^ W)
 
-/-- FRONTIER kernel — `divide_conquer::div_rem_in_place` (Burnikel–Ziegler): defined as its
-    specification: [lhs % rhs (n words), lhs / rhs (m−n words)], quotient carry -/
+/-- reference specification of an in-place division (not executed by the model any more; kept for
+    the statement of what `bzDivRemInPlace` refines): [lhs % rhs (n words), lhs / rhs (m−n words)],
+    quotient carry -/
 def divRemInPlaceDCFrontier (W : Nat) (lhs rhs : List Nat) : List Nat × Nat :=
   let a := val W lhs
   let b := val W rhs
@@ -353,11 +355,102 @@ def divRemInPlaceDCFrontier (W : Nat) (lhs rhs : List Nat) : List Nat × Nat :=
   let m := lhs.length
   (toWords W n (a % b) ++ toWords W (m - n) (a / b), (a / b) / 2 ^ (W * (m - n)))
 
+-- ------------------------------------------------------------------ div/divide_conquer.rs
+
+/-- CONTRACT of `mul::add_signed_mul(c, Negative, a, b)` (`c.len() == a.len() + b.len()`): the
+    words of `c − a·b` modulo `B^len(c)` and the signed carry (floor quotient).  The multiplication
+    kernels themselves are C01's subject. -/
+def subMulContract (W : Nat) (c a b : List Nat) : List Nat × Int :=
+  let v : Int := (val W c : Int) - (val W a : Int) * (val W b : Int)
+  let P : Int := ((2 ^ (W * c.length) : Nat) : Int)
+  (toWords W c.length (v % P).toNat, v / P)
+
+/-- the `while rem_overflow < 0` loop of `div_rem_in_place_small_quotient` (runs ≤ 2 times; the
+    model gives it fuel and the theorem shows the fuel suffices) -/
+def bzFix (W : Nat) (rhs : List Nat) : Nat → List Nat → List Nat → Int → Int →
+    Except PanicKind (List Nat × List Nat × Int × Int)
+  | 0, rem, q, ro, qo =>
+    if ro < 0 then .error (assertErr "small_quotient: correction loop fuel") else .ok (rem, q, ro, qo)
+  | f + 1, rem, q, ro, qo =>
+    if ro < 0 then
+      let (rem', c) := addSameLen W rem rhs 0
+      let (q', bw) := subOne W q
+      bzFix W rhs f rem' q' (ro + (c : Int)) (qo - (bw : Int))
+    else .ok (rem, q, ro, qo)
+
+mutual
+/-- `div_rem_in_place_same_len(lhs, rhs)`: `lhs.len() == 2n`; two 3n/2n divisions -/
+def bzSameLen (W dtop : Nat) : Nat → List Nat → List Nat → Except PanicKind (List Nat × Nat)
+  | 0, _, _ => .error (assertErr "divide_conquer: recursion fuel")
+  | fuel + 1, lhs, rhs =>
+    let n := rhs.length
+    let nLo := n / 2
+    if ¬ (n > thresholdSimple ∧ lhs.length = 2 * n) then
+      .error (assertErr "div_rem_in_place_same_len: n > THRESHOLD_SIMPLE && lhs.len() == 2 * n")
+    else do
+      let (hi', o) ← bzSmallQuotient W dtop fuel (lhs.drop nLo) rhs
+      let lhs1 := lhs.take nLo ++ hi'
+      let (lo', oLo) ← bzSmallQuotient W dtop fuel (lhs1.take (n + nLo)) rhs
+      if oLo ≠ 0 then .error (assertErr "div_rem_in_place_same_len: debug_assert!(!overflow_lo)")
+      else pure (lo' ++ lhs1.drop (n + nLo), o)
+
+/-- `div_rem_in_place_small_quotient(lhs, rhs)`: quotient shorter than the divisor -/
+def bzSmallQuotient (W dtop : Nat) : Nat → List Nat → List Nat → Except PanicKind (List Nat × Nat)
+  | 0, _, _ => .error (assertErr "divide_conquer: recursion fuel")
+  | fuel + 1, lhs, rhs =>
+    let n := rhs.length
+    if ¬ (n ≥ 2 ∧ lhs.length ≥ n) then
+      .error (assertErr "div_rem_in_place_small_quotient: n >= 2 && lhs.len() >= n")
+    else
+      let m := lhs.length - n
+      if ¬ (m < n) then .error (assertErr "div_rem_in_place_small_quotient: m < n")
+      else if m ≤ thresholdSimple then simpleDivRemInPlace W lhs rhs dtop
+      else do
+        -- quotient approximation from the top m words of the divisor (a 2m / m division)
+        let (top', qo) ← bzSameLen W dtop fuel (lhs.drop (n - m)) (rhs.drop (n - m))
+        let lhs1 := lhs.take (n - m) ++ top'
+        let rem := lhs1.take n
+        let q := lhs1.drop n
+        -- subtract q * (the rest of rhs) from rem
+        let (rem1, ro1) := subMulContract W rem q (rhs.take (n - m))
+        let (rem2, ro2) :=
+          if qo ≠ 0 then
+            let (t, bw) := subSameLen W (rem1.drop m) (rhs.take (n - m)) 0
+            (rem1.take m ++ t, ro1 - (bw : Int))
+          else (rem1, ro1)
+        let (rem3, q3, ro3, qo3) ← bzFix W rhs 4 rem2 q ro2 (qo : Int)
+        if ro3 ≠ 0 ∨ ¬ (0 ≤ qo3 ∧ qo3 ≤ 1) then
+          .error (assertErr "div_rem_in_place_small_quotient: rem_overflow == 0 && q_overflow in 0..=1")
+        else pure (rem3 ++ q3, if qo3 ≠ 0 then 1 else 0)
+end
+
+/-- the `while m >= 2 * n` loop of `divide_conquer::div_rem_in_place` followed by the final
+    `small_quotient`; `t` = number of `same_len` blocks still to do on the prefix `lhs`.
+    Only the first block may overflow (`debug_assert!(m == lhs.len())`). -/
+def bzOuter (W dtop : Nat) (rhs : List Nat) (fuel : Nat) : Nat → List Nat → Except PanicKind (List Nat × Nat)
+  | 0, lhs =>
+    if lhs.length > rhs.length then bzSmallQuotient W dtop fuel lhs rhs else .ok (lhs, 0)
+  | t + 1, lhs => do
+    let n := rhs.length
+    let m := lhs.length
+    let (win', o) ← bzSameLen W dtop fuel (lhs.drop (m - 2 * n)) rhs
+    let lhs1 := lhs.take (m - 2 * n) ++ win'
+    let (rest, o2) ← bzOuter W dtop rhs fuel t (lhs1.take (m - n))
+    if o2 ≠ 0 then .error (assertErr "divide_conquer::div_rem_in_place: debug_assert!(m == lhs.len())")
+    else pure (rest ++ lhs1.drop (m - n), o)
+
+/-- `divide_conquer::div_rem_in_place` (Burnikel–Ziegler) -/
+def bzDivRemInPlace (W : Nat) (lhs rhs : List Nat) (dtop : Nat) : Except PanicKind (List Nat × Nat) :=
+  let n := rhs.length
+  if ¬ (lhs.length > n + thresholdSimple ∧ n > thresholdSimple) then
+    .error (assertErr "divide_conquer::div_rem_in_place: lhs.len() > rhs.len() + THRESHOLD && rhs.len() > THRESHOLD")
+  else bzOuter W dtop rhs (2 * n + 1) (lhs.length / n - 1) lhs
+
 /-- `div::div_rem_in_place`: algorithm choice -/
 def divRemInPlace (W : Nat) (lhs rhs : List Nat) (dtop : Nat) : Except PanicKind (List Nat × Nat) :=
   if rhs.length ≤ thresholdSimple ∨ lhs.length - rhs.length ≤ thresholdSimple then
     simpleDivRemInPlace W lhs rhs dtop
-  else .ok (divRemInPlaceDCFrontier W lhs rhs)
+  else bzDivRemInPlace W lhs rhs dtop
 
 /-- `div::normalize(words)`: (normalised words, shift, top double word);
     `debug_assert_zero!` on the shift carry and the `new` assertion are error branches -/
